@@ -72,6 +72,8 @@ def _case(draw, tier):
         else:
             extra["withhold"] = sorted(draw(st.sets(st.sampled_from(["edgesOnCell", "cellsOnEdge", "cellsOnCell"]))))
         extra["edge_perm_seed"] = draw(st.integers(0, 2**16))
+        extra["int_dtype"] = draw(st.sampled_from(["int32", "int64"]))
+        extra["opened_before"] = draw(st.booleans())
     else:
         mesh = draw(meshgen.any_mesh(max_pts=40 if big else 20))
         if kind == "subdiv":
@@ -100,6 +102,9 @@ def classify(case):
         labs.append("source:" + case["source"])
         for w in case.get("withhold", []):
             labs.append("withheld:" + w)
+        if case.get("opened_before"):
+            labs.append("same-dataset-opened-before")
+        labs.append("int:" + case.get("int_dtype", "int32"))
     boundary = not refmodel.is_closed(faces)
     return labs, (boundary or iso or mv >= 5 or case["source"] != "topology")
 
@@ -111,8 +116,13 @@ def _build(case, ctx):
         return build.grid_from_mesh(mesh), None
     from .. import writers
 
-    ds, info = writers.mpas_dataset(mesh, withhold=case.get("withhold", []), edge_perm_seed=case.get("edge_perm_seed", 0))
-    return build.ux().open_grid(ds), info
+    ds, info = writers.mpas_dataset(mesh, withhold=case.get("withhold", []), edge_perm_seed=case.get("edge_perm_seed", 0), int_dtype=case.get("int_dtype", "int32"))
+    g = build.ux().open_grid(ds)
+    if case.get("opened_before"):
+        # history: the same in-memory dataset had already been opened once (and its tables read)
+        _ = g.node_face_connectivity.values, g.face_node_connectivity.values
+        g = build.ux().open_grid(ds)
+    return g, info
 
 
 def run_case(case, ctx):
